@@ -355,6 +355,9 @@ inductive Policy where
   | wrapSeq
   /-- Noise on a sequence: `list(rewards)` -/
   | toList
+  /-- Cycle: `l[-1%n:] + l[:-1%n]` on a sequence, `DiscreteReward(actions, rotate(values))` on a function.
+  The one policy that moves rewards between actions *on purpose* -/
+  | rotate (n : Nat)
   deriving Repr, DecidableEq, Inhabited
 
 def mapM' {α β} (f : α → Except Err β) : List α → Except Err (List β)
@@ -364,6 +367,10 @@ def mapM' {α β} (f : α → Except Err β) : List α → Except Err (List β)
     | .ok b => match mapM' f as with
       | .error e => .error e
       | .ok bs => .ok (b :: bs)
+
+/-- `rotate = lambda l: l[-1%n:] + l[:-1%n]` (for a list of length `n`: the last element moves to the front) -/
+def rotList {α} (n : Nat) (l : List α) : List α :=
+  if n == 0 then l else l.drop (n - 1) ++ l.take (n - 1)
 
 def genericRew (r : Rew) (oldActs newActs : List Val) : Except Err Rew :=
   match r with
@@ -396,6 +403,12 @@ def rekey (p : Policy) (r : Rew) (oldActs newActs : List Val) : Except Err Rew :
     match r with
     | .seq _ rs => .ok (.seq true rs)
     | _ => .error .typeError
+  | .rotate n =>
+    match r with
+    | .seq b rs => .ok (.seq b (rotList n rs))
+    | _ => match mapM' (callRew r) oldActs with
+      | .error e => .error e
+      | .ok vals => if vals.length == oldActs.length then .ok (.discrete oldActs (rotList n vals) 0 false) else .error .cobaException
 
 /-- what a filter decided for one interaction -/
 structure Plan where
@@ -958,41 +971,78 @@ def isDict : Val → Bool
   | .dict _ => true
   | _ => false
 
+/-- Densify over a stream from a given look-up state; returns the plans *and the state the filter
+object is left in* (the only thing a coba representation filter carries from one `filter()` call to the next) -/
+def densifyRun (cfg : Cfg) (m : DMethod) (n : Nat) (c a rC fC : Bool) : DState → List Inter → Except Err (List Plan × DState)
+  | st, [] => .ok ([], st)
+  | st, I :: rest =>
+    match (if c then makeDense m n st I.context else .ok (st, I.context)) with
+    | .error e => .error e
+    | .ok (st1, ctx) =>
+      match (match a, I.actions with
+             | true, some as => (match makeDenseList m n st1 as with | .ok (st2, as') => Except.ok (st2, some as') | .error e => .error e)
+             | _, x => .ok (st1, x)) with
+      | .error e => .error e
+      | .ok (st2, acts) =>
+        match (match a, I.action with
+               | true, some x => (match makeDense m n st2 x with | .ok (st3, x') => Except.ok (st3, some x') | .error e => .error e)
+               | _, x => .ok (st2, x)) with
+        | .error e => .error e
+        | .ok (st3, act) =>
+          let changed := cfg.fixRekey && a && (match I.actions with | some as => as.any isDict | none => false)
+          match densifyRun cfg m n c a rC fC st3 rest with
+          | .error e => .error e
+          | .ok (ps, stEnd) =>
+            let p : Plan := { context := ctx, actions := acts, action := act,
+                              polR := if changed && rC then .generic else .keep,
+                              polF := if changed && fC then .generic else .keep }
+            .ok (p :: ps, stEnd)
+
+/-- the state of a freshly constructed `Densify(n_feats=n)` -/
+def initDState (n : Nat) : DState :=
+  { table := [], fresh := lookupStream n (if n == 0 then 0 else 192 / n + 2) (Coba.C05.normInt 1) }
+
+/-- asking the table for a list of keys, one after the other -/
+def primeKeys (m : DMethod) : DState → List String → Except Err DState
+  | st, [] => .ok st
+  | st, k :: ks => match denseIndex m st k with
+    | .ok (st', _) => primeKeys m st' ks
+    | .error e => .error e
+
+def keysOfVal : Val → List String
+  | .dict kvs => kvs.map (·.1)
+  | _ => []
+
+def keysOfVals : List Val → List String
+  | [] => []
+  | v :: vs => keysOfVal v ++ keysOfVals vs
+
+/-- the keys a `Densify(context=c, action=a)` asks its table for while it filters `s`, in order -/
+def keysAsked (c a : Bool) : List Inter → List String
+  | [] => []
+  | I :: rest =>
+    (if c then keysOfVal I.context else [])
+    ++ (match a, I.actions with | true, some as => keysOfVals as | _, _ => [])
+    ++ (match a, I.action with | true, some x => keysOfVal x | _, _ => [])
+    ++ keysAsked c a rest
+
+/-- the method without the history of the object (`prior` only says where the table starts) -/
+def normMethod : DMethod → DMethod
+  | .lookup _ => .lookup []
+  | m => m
+
 def densifyPlans (cfg : Cfg) (m : DMethod) (n : Nat) (c a : Bool) (s : List Inter) : Except Err (List Plan) :=
   let rC := firstCallable (·.rewards) s
   let fC := firstCallable (·.feedbacks) s
-  let rec go : DState → List Inter → Except Err (List Plan)
-    | _, [] => .ok []
-    | st, I :: rest =>
-      match (if c then makeDense m n st I.context else .ok (st, I.context)) with
-      | .error e => .error e
-      | .ok (st1, ctx) =>
-        match (match a, I.actions with
-               | true, some as => (match makeDenseList m n st1 as with | .ok (st2, as') => Except.ok (st2, some as') | .error e => .error e)
-               | _, x => .ok (st1, x)) with
-        | .error e => .error e
-        | .ok (st2, acts) =>
-          match (match a, I.action with
-                 | true, some x => (match makeDense m n st2 x with | .ok (st3, x') => Except.ok (st3, some x') | .error e => .error e)
-                 | _, x => .ok (st2, x)) with
-          | .error e => .error e
-          | .ok (st3, act) =>
-            let changed := cfg.fixRekey && a && (match I.actions with | some as => as.any isDict | none => false)
-            match go st3 rest with
-            | .error e => .error e
-            | .ok ps => .ok ({ context := ctx, actions := acts, action := act,
-                               polR := if changed && rC then .generic else .keep,
-                               polF := if changed && fC then .generic else .keep } :: ps)
-  let st0 : DState := { table := [], fresh := lookupStream n (if n == 0 then 0 else 192 / n + 2) (Coba.C05.normInt 1) }
-  -- keys handed out by earlier calls keep their slots
+  -- keys handed out by earlier calls of the same filter object keep their slots
   let primed : Except Err DState := match m with
-    | .lookup prior => prior.foldl (fun acc k => match acc with
-        | .error e => .error e
-        | .ok st => match denseIndex m st k with | .ok (st', _) => .ok st' | .error e => .error e) (.ok st0)
-    | _ => .ok st0
+    | .lookup prior => primeKeys (.lookup []) (initDState n) prior
+    | _ => .ok (initDState n)
   match primed with
   | .error e => .error e
-  | .ok st1 => go st1 s
+  | .ok st1 => match densifyRun cfg (normMethod m) n c a rC fC st1 s with
+    | .ok (ps, _) => .ok ps
+    | .error e => .error e
 
 /-! ## Noise -/
 
@@ -1123,6 +1173,37 @@ def wrapPlans (s : List Inter) : List Plan :=
     s.map fun I => { context := I.context, actions := I.actions, action := I.action,
                      polR := if rl then .wrapSeq else .keep, polF := if fl then .wrapSeq else .keep }
 
+/-! ## Cycle (coba/environments/filters.py:575-629) -/
+
+def isStrLike : Val → Bool
+  | .str _ => true
+  | .cat _ _ => true
+  | _ => false
+
+/-- `set(first['actions']) == {one_hot(i,n) for i in range(n)}` (needs hashable actions) -/
+def isOnehotSet (as : List Val) : Bool :=
+  let n := as.length
+  (as.all fun a => (List.range n).any fun i => pyEq a (.tuple (onehotVec i n)))
+  && ((List.range n).all fun i => as.any fun a => pyEq a (.tuple (onehotVec i n)))
+
+def cyclePlans (after : Nat) (s : List Inter) : Except Err (List Plan) :=
+  match s with
+  | [] => .ok []
+  | first :: _ =>
+    let keepAll := s.map fun I => ({ context := I.context, actions := I.actions, action := I.action, polR := .keep, polF := .keep } : Plan)
+    match first.actions with
+    | none => .ok keepAll
+    | some fas =>
+      if !(fas.all hashable) then .error .typeError else
+      let n := fas.length
+      let cyclable := first.rewards.isSome && 0 < n && (isOnehotSet fas || fas.all isStrLike)
+      if !cyclable then .ok keepAll else
+      let hasF := first.feedbacks.isSome
+      .ok ((List.range s.length).map fun t =>
+        let I := s.getD t default
+        if t < after then ({ context := I.context, actions := I.actions, action := I.action, polR := .keep, polF := .keep } : Plan)
+        else { context := I.context, actions := I.actions, action := I.action, polR := .rotate n, polF := if hasF then .rotate n else .keep })
+
 /-! ## Steps, batching, chains -/
 
 inductive Step where
@@ -1133,6 +1214,8 @@ inductive Step where
   | noise (c a : Option NoiseSpec) (oracle : List Rat)
   | harden
   | wrapSeqs
+  /-- `Cycle(after)` -/
+  | cycle (after : Nat)
   | finalize
   | batch (n : Option Nat)
   | unbatch
@@ -1148,6 +1231,7 @@ def plansOf (cfg : Cfg) (st : Step) (s : List Inter) : Except Err (List Plan) :=
   | .noise c a o => noisePlans cfg c a o s
   | .harden => hardenPlans s
   | .wrapSeqs => .ok (wrapPlans s)
+  | .cycle after => cyclePlans after s
   | _ => .error .unmodelled
 
 /-- one primitive filter = decide the plans, then apply them -/
@@ -1208,6 +1292,31 @@ def runChain (cfg : Cfg) : List Step → State → Except Err State
     | .error e => .error e
     | .ok S' => runChain cfg rest S'
 
+/-! ## Filter objects: what survives a `filter()` call
+
+Every representation filter of coba builds its working state inside `filter()`; the one exception
+is `Densify`, whose look-up table lives in the object.  `runPrimObj` is a filter *object* applied
+to one sequence: it takes and returns that table. -/
+def runPrimObj (cfg : Cfg) (st : Step) (T : DState) (s : List Inter) : Except Err (List Inter × DState) :=
+  match st with
+  | .densify n (.lookup _) c a =>
+    match densifyRun cfg (.lookup []) n c a (firstCallable (·.rewards) s) (firstCallable (·.feedbacks) s) T s with
+    | .error e => .error e
+    | .ok (ps, T') => match applyPlans s ps with
+      | .ok s' => .ok (s', T')
+      | .error e => .error e
+  | _ => match runPrim cfg st s with
+    | .ok s' => .ok (s', T)
+    | .error e => .error e
+
+/-- the same filter object applied to sequence `A`, then to sequence `B`: what `B` gives -/
+def runObjTwice (cfg : Cfg) (st : Step) (T : DState) (A B : List Inter) : Except Err (List Inter) :=
+  match runPrimObj cfg st T A with
+  | .error e => .error e
+  | .ok (_, T1) => match runPrimObj cfg st T1 B with
+    | .ok (b, _) => .ok b
+    | .error e => .error e
+
 /-! ## Run-time form of the theorems' hypotheses (reported to the harness as `hyp`) -/
 
 /-- hypothesis on one target of one plan: what the re-keying needs to be sound -/
@@ -1218,6 +1327,7 @@ def targetHypB (p : Policy) (r : Option Rew) (oldActs newActs : List Val) : Bool
     match p with
     | .keep => obsEq (obsOf r oldActs) (obsOf r newActs)
     | .toList => true
+    | .rotate _ => false          -- Cycle does not preserve alignment (see `cycle_spec`)
     | .wrapSeq => distinctB newActs
     | .generic => distinctB newActs
     | .reprStyle fixD =>
@@ -1308,6 +1418,81 @@ def sameNestShape : List Bool → List Val → List Val → Bool
       | _, _ => false
      else true) && sameNestShape fs xs ys
   | _, _, _ => false
+
+def ckNats : List CK → Option (List Nat)
+  | [] => some []
+  | .i n :: r => (ckNats r).map (n :: ·)
+  | _ :: _ => none
+
+/-- `r` has the shape of `first` as far as `Repr` is concerned: the same container kind and length,
+and a categorical over the same levels wherever `first` has a (top-level) categorical -/
+def sameDenseCatShape (ns : List Nat) (first r : Val) : Bool :=
+  match first, r with
+  | .list xs, .list ys => xs.length == ys.length && ns.all (sameCatAt xs ys)
+  | .tuple xs, .tuple ys => xs.length == ys.length && ns.all (sameCatAt xs ys)
+  | _, _ => false
+
+/-- shape hypothesis of `repr_dense_rows_distinct`: dense rows (all tuples or all lists of one length)
+whose categorical cells are at the top level, at the same positions, over the same level lists -/
+def denseCatShapeB (rows : List Val) : Bool :=
+  match rows with
+  | [] => true
+  | first :: _ =>
+    match ckNats (catkey first) with
+    | some (n :: ns) => descending (n :: ns) && rows.all (sameDenseCatShape (n :: ns) first)
+    | _ => false
+
+/-- shape hypothesis of `flatten_dense_rows_distinct`: dense rows of one container kind and one
+length whose nested cells are, position by position, containers of one kind and one length -/
+def flattenShapeB (rows : List Val) : Bool :=
+  match rows with
+  | [] => true
+  | first :: _ =>
+    match first with
+    | .list fs => rows.all fun r => match r with
+        | .list xs => xs.length == fs.length && sameNestShape (fs.map isFlattable) fs xs
+        | _ => false
+    | .tuple fs => rows.all fun r => match r with
+        | .tuple xs => xs.length == fs.length && sameNestShape (fs.map isFlattable) fs xs
+        | _ => false
+    | _ => false
+
+/-- why the shape is needed: `((1,),(2,3))` and `((1,2),(3,))` are different actions with the same flattening -/
+def wFlattenShape : List Val :=
+  [.tuple [.tuple [.num 1], .tuple [.num 2, .num 3]], .tuple [.tuple [.num 1, .num 2], .tuple [.num 3]]]
+
+mutual
+/-- the dense fragment of the universe: no dict and no SparseDense anywhere inside -/
+def denseOnly : Val → Bool
+  | .list xs => denseOnlyL xs
+  | .tuple xs => denseOnlyL xs
+  | .dict _ => false
+  | .lazy _ _ => false
+  | _ => true
+def denseOnlyL : List Val → Bool
+  | [] => true
+  | x :: xs => denseOnly x && denseOnlyL xs
+end
+
+def uniqKeys : List String → Bool
+  | [] => true
+  | k :: ks => !ks.contains k && uniqKeys ks
+
+mutual
+/-- values as Python can build them from lists, tuples and dicts: dict keys are unique (no SparseDense inside) -/
+def wfNoLazy : Val → Bool
+  | .list xs => wfNoLazyL xs
+  | .tuple xs => wfNoLazyL xs
+  | .dict kvs => uniqKeys (kvs.map (·.1)) && wfNoLazyD kvs
+  | .lazy _ _ => false
+  | _ => true
+def wfNoLazyL : List Val → Bool
+  | [] => true
+  | x :: xs => wfNoLazy x && wfNoLazyL xs
+def wfNoLazyD : List (String × Val) → Bool
+  | [] => true
+  | (_, v) :: r => wfNoLazy v && wfNoLazyD r
+end
 
 /-! ### witnesses of the recorded defects (replayed on the real code by the harness) -/
 def catA : Val := .cat "a" ["a", "b"]
